@@ -71,7 +71,7 @@ pub fn through_decoder(prop: &str, rep: &mut Report, cube: &Cube, focus: &[KeyCo
     for li in 0..10 {
         for h in 0..n_hist {
             let mut rng = Rng::fork(rep.seed, 0x7470_0000 + ((li as u64) << 24) + h as u64);
-            let ops = history(&mut rng, focus, &all, len);
+            let ops = history(&mut rng, focus, &all, if h < 2 { len * 40 } else { len });
             let r = guarded(|| {
                 let mut kb = Keyboard::new(ScancodeSet2::new(), dyn_layout(li, 0), if h % 2 == 0 { HandleControl::MapLettersToUnicode } else { HandleControl::Ignore });
                 let mut bad: Option<(usize, u16, usize, u32, String)> = None;
